@@ -2,16 +2,18 @@
 """collect_mutant.py <Cxx> <k>: copy a CONFIRMED sub-agent change into /verif/seeded/<Cxx>-<k>/"""
 import json, os, shutil, sys
 pid, k = sys.argv[1], sys.argv[2]
-src = "/tmp/mut/%s/OUT" % pid
+base = os.environ.get("MUTBASE", "/tmp/mut")
+tagx = os.environ.get("MUTTAG", "")          # e.g. "r2-" for the second round
+src = "%s/%s/OUT" % (base, pid)
 conf = open("%s/confirm%s.txt" % (src, k)).read()
 assert "RESULT: CONFIRMED" in conf, conf
-dst = "/verif/seeded/%s-%s" % (pid, k)
+dst = "/verif/seeded/%s-%s%s" % (pid, tagx, k)
 os.makedirs(dst, exist_ok=True)
 shutil.copy("%s/patch%s.diff" % (src, k), dst + "/patch.diff")
 shutil.copy("%s/demo%s.rs" % (src, k), dst + "/demo.rs")
 notes = open("%s/notes%s.md" % (src, k)).read()
 open(dst + "/notes.md", "w").write(notes)
-meta = {"id": "%s-%s" % (pid, k), "breaks_property": pid, "origin": "independent sub-agent given only the property text and a scratch worktree",
+meta = {"id": "%s-%s%s" % (pid, tagx, k), "breaks_property": pid, "origin": "independent sub-agent given only the property text and a scratch worktree",
         "needs_to_manifest": notes.strip().split("\n")[0:40],
         "confirmed": {"how": "tools/confirm_mutant.sh in a scratch worktree of /repo HEAD: patch applies; cargo build --features curve25519,argon2; "
                              "cargo test --workspace --no-fail-fast --offline = 91 passed with the patch; demo fails with the patch and passes without",
